@@ -331,8 +331,10 @@ void dispatchArgs(GenState &gs, Node *c) {
     return;
   }
 
+  // every parameter occupies its own register, also when a name is repeated:
+  // argument k is passed in register k
   gs.getSymbols().argnum++;
-  gs.getSymbols().fetchVariableRegister(std::string(c->tok));
+  gs.getSymbols().register_state.push_back({true, false, std::string(c->tok)});
 }
 
 // dispatch a function definition
